@@ -77,6 +77,12 @@ class SourceIndex(object):
                         lines.add(min(d.lineno for d in n.decorator_list))
                     for ln in lines:
                         by_line.setdefault(ln, []).append(n)
+            # every loop knows its enclosing function (innermost wins: ast.walk is breadth-first)
+            for n in ast.walk(tree):
+                if isinstance(n, (ast.FunctionDef, ast.Lambda)):
+                    for m in ast.walk(n):
+                        if isinstance(m, (ast.For, ast.While)):
+                            m._pyvc_func = n
             self.files[filename] = (tree, hashlib.sha256(raw).hexdigest(), by_line)
         return self.files[filename]
 
